@@ -94,12 +94,14 @@ static int big_cmp(const void *a, const void *b, void *p)
     return (*(const int *)a > *(const int *)b) - (*(const int *)a < *(const int *)b);
 }
 
+static void nest_reset(void);
 static void st_create(int scope)
 {
     int i;
     /* scope: bits 0-3 nlists, 4-7 nkeys, 8-19 npool, bit 20: odd lists use the second node */
     nlists = scope & 15; nkeys = (scope >> 4) & 15; npool = (scope >> 8) & 0xfff; mixed = (scope >> 20) & 1;
     for (i = 0; i < npool; i++) pool[i] = new_elem(i, i % nkeys);
+    nest_reset();
     for (i = 0; i < nlists; i++) {
         cls[i] = mixed ? (i & 1) : 0;
         memset(&L[i], 0x77, sizeof(L[i]));      /* the object's previous bytes are garbage to a fresh list */
@@ -222,17 +224,164 @@ static void audit_all(void)
     for (l = 0; l < nlists; l++) audit_list(l);
 }
 
+/* ---- nested lists (mode "clear", C15): a list of directories each owning a list of files ----
+ * Right before a clear some elements of the list (the first, the last, several, all, one) are given a private,
+ * non-empty list of individually allocated sub-elements.  The outer clear callback destroys what the element
+ * owns first: it clears the inner list through the library with ANOTHER callback function.  That is a clear of
+ * another object of the same type running inside a clear: every outer element must still reach the outer
+ * callback exactly once, every sub-element the callback of its own clear call exactly once, nothing the wrong
+ * function, nothing after its callback returned, and both lists end empty and usable.  Half of the inner lists
+ * keep the overwritten sub-elements until their clear has returned and verify the overwrite then (a write after
+ * the callback shows without a sanitizer, a read runs into 0xa5a5.. links), the others free them at once. */
+#define SMAGIC 0x5ab5115fu
+#define SUBMAX 3
+struct subl;
+struct felem {
+    uint32_t magic;
+    int key;
+    struct subl *owner;
+    uint64_t pad0;
+    struct cstl_slist_node node;
+    uint64_t pad1;
+};
+struct subl {
+    uint32_t magic;
+    int n, seen, hold, owner_id;
+    struct felem *se[SUBMAX];           /* linked sub-elements (NULL once handed over) */
+    struct felem *held[SUBMAX];         /* hold: handed over and overwritten, not freed yet */
+    struct felem *spare;                /* for the push that proves the cleared inner list usable */
+    struct cstl_slist l;
+};
+static struct subl *SUB[MAXE];          /* by element id */
+static int nest_on;                     /* mode "clear" */
+static struct subl *cur_sub;            /* the inner list being cleared right now */
+static int outer_running, inner_done, nsubs;
+static struct felem *new_felem(struct subl *s, int key)
+{
+    struct felem *x = vrt_alloc(sizeof(*x));
+    memset(x, 0x5e, sizeof(*x));
+    x->magic = SMAGIC; x->key = key; x->owner = s;
+    return x;
+}
+static void sub_attach(struct elem *e, unsigned salt)
+{
+    struct subl *s = vrt_alloc(sizeof(*s));
+    int i;
+    memset(s, 0x5e, sizeof(*s));
+    s->magic = SMAGIC; s->n = 1 + (int)(salt % SUBMAX); s->seen = 0; s->hold = (salt >> 3) & 1; s->owner_id = e->id;
+    VRT_OP2("slist.nested.fill", "inner list of e%ld, %ld sub-elements", e->id, s->n);
+    if (salt & 4) cstl_slist_init(&s->l, offsetof(struct felem, node));
+    else s->l = (struct cstl_slist)CSTL_SLIST_INITIALIZER(s->l, struct felem, node);
+    for (i = 0; i < SUBMAX; i++) s->se[i] = s->held[i] = NULL;
+    for (i = 0; i < s->n; i++) {
+        s->se[i] = new_felem(s, i);
+        if ((salt >> (4 + i)) & 1) cstl_slist_push_front(&s->l, s->se[i]); else cstl_slist_push_back(&s->l, s->se[i]);
+    }
+    s->spare = new_felem(s, SUBMAX);
+    SUB[e->id] = s; nsubs++;
+    VRT_COUNT("nested.attached");
+}
+static void sub_clear_cb(void *ev, void *p)
+{
+    struct felem *x = ev;
+    int i, k = -1;
+    VRT_CHECK(cur_sub != NULL, "slist.clear.nested.callback-outside-its-clear",
+              "the callback given to the clear of an inner list was invoked while no inner clear is running");
+    VRT_CHECK(p == NULL, "slist.clear.nested.priv", "inner clear callback got priv %p", p);
+    for (i = 0; i < cur_sub->n; i++) if (cur_sub->se[i] == x) k = i;
+    VRT_CHECK(k >= 0, "slist.clear.nested.foreign-element", "inner clear callback was handed something that is not a linked element of the inner list being cleared (or an element twice)");
+    VRT_CHECK(x->magic == SMAGIC && x->owner == cur_sub, "slist.clear.nested.element-damaged", "sub-element handed to the inner clear callback does not carry its owner's marks any more");
+    cur_sub->se[k] = NULL;
+    cur_sub->seen++;
+    memset(x, 0xa5, sizeof(*x));
+    if (cur_sub->hold) cur_sub->held[k] = x; else vrt_free(x);
+    VRT_COUNT("clear.nested.handed-over");
+}
+/* the owning element is being destroyed (inside the outer clear callback): clear its list through the library */
+static void sub_destroy(struct elem *e)
+{
+    struct subl *s = SUB[e->id], *prev = cur_sub;
+    int i;
+    size_t k;
+    cur_sub = s; s->seen = 0;
+    VRT_OP2("slist.nested.clear", "inner list of e%ld (%ld sub-elements), from the clear callback of the outer list", e->id, s->n);
+    cstl_slist_clear(&s->l, sub_clear_cb);
+    cur_sub = prev;
+    VRT_CHECK(s->seen == s->n, "slist.clear.nested.count", "inner clear handed over %d of %d sub-elements", s->seen, s->n);
+    for (i = 0; i < s->n; i++) if (s->held[i] != NULL) {
+        const unsigned char *b = (const unsigned char *)s->held[i];
+        for (k = 0; k < sizeof(struct felem) && b[k] == 0xa5; k++) ;
+        VRT_CHECK(k == sizeof(struct felem), "slist.clear.nested.touched-after-callback", "sub-element written at byte %zu after its clear callback had returned", k);
+        vrt_free(s->held[i]); s->held[i] = NULL;
+        VRT_COUNT("clear.nested.overwrite-verified");
+    }
+    VRT_CHECK(cstl_slist_size(&s->l) == 0 && cstl_slist_front(&s->l) == NULL && cstl_slist_back(&s->l) == NULL,
+              "slist.clear.nested.not-empty", "inner list after its clear: size %zu, front/back not both NULL", cstl_slist_size(&s->l));
+    /* usable like a fresh one */
+    cstl_slist_push_back(&s->l, s->spare);
+    VRT_CHECK(cstl_slist_size(&s->l) == 1 && cstl_slist_front(&s->l) == (void *)s->spare && cstl_slist_back(&s->l) == (void *)s->spare
+              && s->spare->node.n == NULL,
+              "slist.clear.nested.reuse", "push_back on the cleared inner list: size %zu, front/back are not the one element or it has a successor", cstl_slist_size(&s->l));
+    VRT_CHECK(cstl_slist_pop_front(&s->l) == (void *)s->spare && cstl_slist_size(&s->l) == 0 && cstl_slist_back(&s->l) == NULL,
+              "slist.clear.nested.reuse", "pop_front on the re-used inner list did not return its only element / leave it empty");
+    vrt_free(s->spare);
+    memset(s, 0xa5, sizeof(*s));
+    vrt_free(s);
+    SUB[e->id] = NULL; nsubs--;
+    inner_done++;
+    VRT_COUNT("clear.nested.lists-cleared");
+}
+static void nest_reset(void)
+{
+    int i;
+    for (i = 0; i < npool; i++) SUB[i] = NULL;
+    cur_sub = NULL; outer_running = 0; inner_done = 0; nsubs = 0;
+}
+/* give some elements of list l a list of their own; which ones changes from clear to clear */
+static void sub_attach_some(int l)
+{
+    const unsigned salt = vrt_case_tick() * 2654435761u + 0x9e37u;
+    const int len = Mn[l], variant = (int)((salt >> 28) % 5);
+    int i, owners = 0;
+    for (i = 0; i < len; i++) {
+        const unsigned h = (salt ^ (unsigned)i * 40503u) * 2246822519u >> 16;
+        int own;
+        switch (variant) {
+        case 0: own = len <= 16 || i == 0 || i == len - 1 || h % 4 == 0; break;       /* all (long lists: first, last, every fourth) */
+        case 1: own = i == 0 || i == len - 1; break;                                    /* both ends */
+        case 2: own = i == 0 || i == len - 1 || h % 3 == 0; break;                      /* both ends and some in between */
+        case 3: own = i != 0 && i != len - 1 && h % 2 == 0; break;                      /* neither end */
+        default: own = len <= 16 ? ((salt >> 8) % (unsigned)len == (unsigned)i) : h % 8 == 0; break;    /* one, anywhere */
+        }
+        if (!own || SUB[M[l][i]->id] != NULL) continue;
+        sub_attach(M[l][i], h ^ (salt >> 7));
+        owners++;
+        if (i == 0) VRT_COUNT("clear.nested.first-element-owns-a-list");
+        if (i == len - 1) VRT_COUNT("clear.nested.last-element-owns-a-list");
+        if (i > 0 && i < len - 1) VRT_COUNT("clear.nested.inner-element-owns-a-list");
+    }
+    if (owners >= 2) VRT_COUNT("clear.nested.several-owners");
+    if (owners > 0 && owners < len) VRT_COUNT("clear.nested.owners-and-plain-elements");
+}
+
 /* clear callback: exactly-once state machine, poison, free */
 static int clear_list, clear_seen;
 static void clear_cb(void *e, void *p)
 {
     struct elem *x = e;
     int id;
+    VRT_CHECK(cur_sub == NULL, "slist.clear.nested.wrong-callback", "the clear of an inner list invoked the callback given to the clear of the outer list");
+    VRT_CHECK(outer_running, "slist.clear.callback-outside-its-clear", "clear callback invoked while its clear is not running");
     VRT_CHECK(p == NULL, "slist.clear.priv", "clear callback got priv %p", p);
     VRT_CHECK(x->magic == MAGIC, "slist.clear.non-element", "clear callback for a non-element / twice");
     VRT_CHECK(x->where[cls[clear_list]] == clear_list, "slist.clear.non-member", "clear callback for element %d not in list %d", x->id, clear_list);
     id = x->id;
     clear_seen++;
+    if (inner_done) VRT_COUNT("clear.nested.outer-went-on-after-inner-clear");
+    if (SUB[id] != NULL) {
+        sub_destroy(x);
+        VRT_OP2("slist.clear", "l%ld (goes on after the nested clear in the callback for e%ld)", clear_list, id);
+    }
     if (x->where[!cls[clear_list]] >= 0) {
         /* still linked into a list of the other class through its other node: only this node is dead */
         memset(&x->node[cls[clear_list]], 0xa5, sizeof(x->node[0]));
@@ -438,9 +587,13 @@ static int st_apply(uint32_t op, int audit)
     case K_CLEAR:
         vrt_state(Mn[l1] == 0 ? "empty" : "nonempty");
         VRT_OP1("slist.clear", "l%ld", l1);
-        clear_list = l1; clear_seen = 0;
+        if (nest_on && Mn[l1] > 0) { sub_attach_some(l1); VRT_OP1("slist.clear", "l%ld", l1); }
+        clear_list = l1; clear_seen = 0; outer_running = 1; inner_done = 0;
         if (vrt_case_tick() & 1) cstl_slist_clear(&L[l1], clear_cb); else VRT_NOMEM(cstl_slist_clear(&L[l1], clear_cb));     /* clear has no way to fail: also with an allocator that refuses everything */
+        outer_running = 0;
         VRT_CHECK(clear_seen == Mn[l1], "slist.clear.count", "clear handed over %d of %d elements", clear_seen, Mn[l1]);
+        VRT_CHECK(nsubs == 0, "slist.clear.nested.owner-not-handed-over", "%d elements that own a list were not handed to the clear callback", nsubs);
+        if (inner_done) VRT_COUNT("op.clear.with-nested-clears");
         Mn[l1] = 0;
         VRT_COUNT("op.clear");
         break;
@@ -929,6 +1082,7 @@ static uint64_t nrandom(void)
 static uint64_t ncases(void)
 {
     is_clear_mode = strcmp(vrt_mode, "clear") == 0;
+    nest_on = is_clear_mode;
     if (vrt_thorough) { scopes = thorough_scopes; nscopes = sizeof(thorough_scopes) / sizeof(scopes[0]); }
     else { scopes = quick_scopes; nscopes = sizeof(quick_scopes) / sizeof(scopes[0]); }
     return nscopes + (is_clear_mode ? 0 : NBIG + nruns()) + nrandom();
@@ -961,6 +1115,13 @@ static const char *const required[] = {
     "sort.runs.cases", "sort.runs.more-than-64-runs", "sort.runs.more-than-1024-runs", "sort.runs.ascending-runs", "sort.runs.descending-runs",
     "sort.runs.comparator-agrees-with-runs", "sort.runs.comparator-against-runs", "sort.comparator-sorted-another-list", NULL
 };
+/* mode "clear" only: a clear inside a clear */
+static const char *const required_nested[] = {
+    "nested.attached", "clear.nested.handed-over", "clear.nested.lists-cleared", "clear.nested.overwrite-verified",
+    "clear.nested.first-element-owns-a-list", "clear.nested.last-element-owns-a-list", "clear.nested.inner-element-owns-a-list",
+    "clear.nested.several-owners", "clear.nested.owners-and-plain-elements", "clear.nested.outer-went-on-after-inner-clear",
+    "op.clear.with-nested-clears", NULL
+};
 static const struct vrt_harness H = { "slist", ncases, run_case, winit, NULL, required, 16 };
 static struct vrt_harness H_clear;
 
@@ -971,6 +1132,7 @@ int main(int argc, char **argv)
     for (i = 1; i + 1 < argc; i++) if (!strcmp(argv[i], "--mode") && !strcmp(argv[i + 1], "clear")) {
         int k;
         for (k = 0; k < 63 && required[k] && strcmp(required[k], "sort.runs.cases"); k++) required_clear[k] = required[k];
+        for (i = 0; required_nested[i]; i++) required_clear[k++] = required_nested[i];
         required_clear[k] = NULL;
         H_clear = H; H_clear.required = required_clear;
         return vrt_main(argc, argv, &H_clear);
